@@ -298,9 +298,12 @@ def run():
     cases = common.gen_cases(n, common.seed(), opts, kinds=["grammar", "mem", "rule", "short", "split", "grammar"],
                              k_states=20 if quick else 40)
     rnd = random.Random(common.seed() + 5)
-    for i in range(n // 3):
+    # statement blocks: twice as many under -no-simplification (dead and duplicated stores stay in the specification,
+    # so the checker has to tell identically written instructions apart by their position)
+    stmt_opts = opts + [["-greedy", "-no-simplification"], ["-greedy", "-no-simplification"], ["-greedy"]]
+    for i in range(n):
         stmts, nin = gen.gen_stmt_block(rnd)
-        o = opts[i % len(opts)]
+        o = stmt_opts[i % len(stmt_opts)]
         cases.append({"block": [p for s_ in stmts for p in s_], "stmts": stmts, "opts": o, "_group": " ".join(o),
                       "sseed": rnd.getrandbits(30), "kind": "statements", "k": 24, "idx": n + i})
     cases.sort(key=lambda c: c["_group"])
